@@ -123,7 +123,7 @@ let run_script (cfgline : string) (lines : string list) =
           let ret =
             match name with
             | "ins" -> "h"
-            | "get" | "remove" ->
+            | "get" | "gof" | "remove" ->
                 (match lookup_key (geti kv "k") with
                  | Some r -> Printf.sprintf "hit:%d" (int_of_n r.rval) | None -> "miss")
             | "touch" | "contains" ->
@@ -132,7 +132,7 @@ let run_script (cfgline : string) (lines : string list) =
           let gop () =
             match name with
             | "ins" -> OInsert (n "k", n "v", n "w", hash (n "k"), b "low", b "ph", n "h", vs)
-            | "get" -> OGet (n "k", n "h")
+            | "get" | "gof" -> OGet (n "k", n "h")
             | "touch" -> OTouch (n "k", n "h")
             | "contains" -> OContains (n "k")
             | "remove" -> ORemove (n "k", n "h")
@@ -145,7 +145,7 @@ let run_script (cfgline : string) (lines : string list) =
           let cop () =
             match name with
             | "ins" -> CInsert (n "k", n "v", n "w", hash (n "k"), b "low", b "ph", n "h")
-            | "get" -> CGet (n "k", n "h")
+            | "get" | "gof" -> CGet (n "k", n "h")
             | "touch" -> CTouch (n "k", n "h")
             | "contains" -> CContains (n "k")
             | "remove" -> CRemove (n "k", n "h")
